@@ -16,8 +16,10 @@ try:
         with open(os.path.join(tmp, mod + ".py"), "w") as f:
             f.write("import pydantic.v1.dataclasses\nfrom tickit.core.components.component import Component, ComponentConfig\n"
                     "from tickit.core.components.device_component import DeviceComponent\nfrom tickit.devices.sink import SinkDevice\n\n")
-            for cname, fields in classes:
-                f.write("@pydantic.v1.dataclasses.dataclass\nclass %s(ComponentConfig):\n" % cname)
+            for item in classes:
+                cname, fields = item[0], item[1]
+                base = item[2] if len(item) > 2 and item[2] else "ComponentConfig"
+                f.write("@pydantic.v1.dataclasses.dataclass\nclass %s(%s):\n" % (cname, base))
                 for fn, ft in fields:
                     f.write("    %s: %s\n" % (fn, ft))
                 if not fields:
